@@ -936,3 +936,68 @@ def _replay_balance(inputs, ghost=None):
     shutil.rmtree(d, ignore_errors=True)
     out.update(returned=repr(np.round(w, 5).tolist()) if w is not None else None, raised=None, violations=viol, violates_contract=bool(viol))
     return out
+
+
+@custom("cooler.create._create:write_pixels")
+def _replay_write_pixels(inputs, ghost=None):
+    """a real HDF5 group prepared by prepare_pixels, then write_pixels over chunks with the counter-model's
+    lengths (and fractional counts in the float configuration); the columns must hold the concatenation of the
+    chunks, their length must be the returned nnz, the returned total the sum of the counts.  The model's chunk
+    lengths are tried first, then a few fixed length patterns (empty chunks first/last/between)."""
+    import os
+    import shutil
+    import tempfile
+    import threading
+    import h5py
+    import numpy as np
+    from cooler.create._create import prepare_pixels, write_pixels
+    g = {k: conv(v) for k, v in (ghost or {}).items()}
+    lens0 = [int(x) for x in list(g.get("r_lens") if g.get("r_lens") is not None else [])][:8]
+    lens0 = [x if 0 <= x <= 6 else 2 for x in lens0]
+    real = bool(g.get("r_real_count"))
+    has_count = bool(g.get("r_has_count", True))
+    cols = ["bin1_id", "bin2_id", "count" if has_count else "score"]
+    out = {"inputs_used": {"chunk_lengths": lens0, "float_counts": real, "columns": cols}}
+    first = None
+    for n_try, lens in enumerate([lens0, [], [0], [0, 0], [2], [0, 3], [3, 0], [1, 0, 2], [2, 2, 1]]):
+        d = tempfile.mkdtemp(prefix="pyvc_wp_")
+        p = os.path.join(d, "w.h5")
+        dt = {"bin1_id": np.int64, "bin2_id": np.int64, cols[2]: (np.float64 if real else np.int32)}
+        with h5py.File(p, "w") as f:
+            prepare_pixels(f.create_group("g/pixels"), 10, 55, cols, dt, {})
+        chunks, k = [], 0
+        for n in lens:
+            val = (np.arange(k, k + n) % 7 + (0.5 if real else 0)).astype(dt[cols[2]])
+            chunks.append({"bin1_id": np.arange(k, k + n) // 5, "bin2_id": np.arange(k, k + n) % 10, cols[2]: val})
+            k += n
+        viol, raised, res = [], None, None
+        try:
+            res = write_pixels(p, "g/pixels", cols, iter(chunks), {}, threading.Lock() if g.get("r_lock") else None)
+        except Exception as e:
+            raised = e
+        if raised is not None:
+            viol.append(f"write_pixels raised {type(raised).__name__}: {raised}")
+        else:
+            nnz, total = res
+            if nnz != k:
+                viol.append(f"returned nnz {nnz}, chunks hold {k} records")
+            with h5py.File(p, "r") as f:
+                for c in cols:
+                    got = f["g/pixels"][c][:]
+                    exp = np.concatenate([ch[c] for ch in chunks]) if chunks else np.array([])
+                    if len(got) != k:
+                        viol.append(f"column {c} has length {len(got)}, {k} records were given")
+                    elif k and not np.array_equal(got, exp):
+                        viol.append(f"column {c} is not the concatenation of the chunks")
+            exp_total = float(sum(ch[cols[2]].sum() for ch in chunks)) if has_count else 0
+            if has_count and float(total) != exp_total:
+                viol.append(f"returned total {total}, the counts sum to {exp_total}")
+        shutil.rmtree(d, ignore_errors=True)
+        r = dict(out, chunk_lengths_used=lens, returned=repr(res), raised=None if raised is None else str(raised),
+                 violations=viol, violates_contract=bool(viol),
+                 variant="the counter-model's chunk lengths" if n_try == 0 else "fixed chunk-length pattern")
+        if first is None:
+            first = r
+        if viol:
+            return r
+    return first
